@@ -44,7 +44,14 @@ func Main(run *lib.Run, prop string) {
 			case 2:
 				o.Padding, o.TableSizeChanges = false, false
 			}
+			if i%50 == 25 {
+				o.FrameSizeChanges, o.TableSizeChanges = false, false
+			}
 			sc := GenScript(r, o)
+			if i%50 == 25 {
+				// header blocks on and around the frame-size limit, with and without priority
+				EdgeStreams(sc, r, i/50)
+			}
 			if i%12 == 7 {
 				sc.ViaMITM = true
 				sc.Features["via-mitm"] = true
